@@ -1,6 +1,7 @@
 //! C20: derived JSON / equality / ordering / hashing / clone.
 //!
-//! `vharness run c20 table` — one line per case: `<model|class|modelm|classm> <D1,D2,...|->` (the
+//! `vharness run c20 table` — one line per case: `<model|class|modelm|classm> <D1,D2[+D3,...]|->` (`+` starts another
+//!   `@derive(..)` decorator on the same declaration; the
 //!   `m` kinds add one method to the declaration). Output `names|<to_json emitted 0/1>|<from_json emitted 0/1>`. Runs the REAL
 //!   lexer, parser, type checker, lowering (`lower_model`/`lower_class` + `extract_derives`) and
 //!   emitter (`emit_struct`) on a declaration carrying `@derive(D1, D2, ...)` and prints the names
@@ -96,10 +97,12 @@ fn table_case(line: &str) -> String {
     let mut it = line.split_whitespace();
     let kind = it.next().unwrap_or("model");
     let ds = it.next().unwrap_or("-");
-    let list: Vec<&str> = if ds == "-" { vec![] } else { ds.split(',').collect() };
+    // `A,B+C` = two decorators `@derive(A, B)` and `@derive(C)` on the same declaration
+    let groups: Vec<Vec<&str>> = if ds == "-" { vec![] } else { ds.split('+').map(|g| g.split(',').collect()).collect() };
+    let list: Vec<&str> = groups.iter().flatten().copied().collect();
     let mut src = String::new();
-    if !list.is_empty() {
-        src.push_str(&format!("@derive({})\n", list.join(", ")));
+    for g in &groups {
+        src.push_str(&format!("@derive({})\n", g.join(", ")));
     }
     let with_method = kind == "classm" || kind == "modelm";
     let kw = if kind.starts_with("class") { "class" } else { "model" };
